@@ -28,8 +28,9 @@ type HCtx struct {
 
 // Release calls ServerCtx.Release and logs it.
 func (h *HCtx) Release() {
-	h.Ctx.Release()
+	// logged before the call: once the lock is released the server may start the next handler at once
 	h.W.Event(&h.W.srvO[h.Node], Event{Kind: "release", Node: h.Node, Conn: h.Conn, Inc: h.Inc, Method: h.Method, Tok: h.Tok})
+	h.Ctx.Release()
 }
 
 // Reply is the outcome of a puppet handler.
